@@ -133,6 +133,23 @@ void seg_case(Ctx &c) {
         } else {
             size_t maxn = c.rng.chance(1, 12) ? 120000 : 4000; // long segments exercise the hull pops
             sc.keys = gen_keys<K>(c.rng, std::max<size_t>(sc.eps, 1), maxn, sc.family);
+            if constexpr (is_int && sizeof(K) == 8) {
+                if (c.rng.chance(1, 45)) {
+                    // one enormous segment whose EVERY point stays a hull vertex: gaps drift by one unit per key, so the
+                    // rank-vs-key curve is strictly convex (or concave) yet within eps of a line over > 2^16 keys
+                    using D = UDom<K>;
+                    size_t n = 70000 + c.rng.below(c.thorough() ? 200000 : 110000);
+                    uint64_t G = uint64_t(1) << c.rng.pick<int>({30, 36, 40});
+                    bool shrinking = c.rng.chance(1, 2);
+                    std::vector<uint64_t> u(n);
+                    uint64_t cur = c.rng.below(1000);
+                    for (size_t i = 0; i < n; ++i) { u[i] = cur; cur += shrinking ? G - i : G + i; }
+                    sc.keys.resize(n);
+                    for (size_t i = 0; i < n; ++i) sc.keys[i] = D::to_key(std::min(u[i], D::R));
+                    sc.family = "slow_convex_long_segment";
+                    if (sc.eps == 0) sc.eps = 1;
+                }
+            }
             if constexpr (is_int) {
                 if (c.rng.chance(1, 10) && sc.keys.size() >= 8 && sizeof(K) >= 4) {
                     // points alternately on y+eps / y-eps of a line: x_i = g*i + (-1)^i * g*eps  (kept sorted)
